@@ -69,7 +69,8 @@ class P(vlib.Prop):
             "exporter: histories of Send calls (single, gated bursts, timer flushes) through the real BaseExporter under generated "
             "queue (none / memory / persistent, requests / items sizer, capacity), batch (none / sending_queue::batch / legacy batcher, min, max), "
             "retry and scripted pusher outcomes (ok / transient / permanent / partial / interrupted by shutdown), then Shutdown. "
-            "Every counter of the meter provider is read back and compared name by name with the model's ledger; "
+            "Every case draws a tracer-provider mode (recording SDK spans / no-op provider / NeverSample / ParentBased(NeverSample)) and, for receiver and processor, a live or cancelled caller context. "
+            "Every counter of the meter provider and the item attributes of the recorded spans are read back and compared name by name with the model's ledger; "
             "all cases are non-trivial (at least one operation); distinct = distinct case terms.")
     trusted_base = [
         "Coq 8.16.1 kernel + vm_compute (coqc); no axioms (Print Assumptions: closed under the global context)",
